@@ -2,7 +2,7 @@
 Byte equality over all sizes/segmentations is a runtime-value property and is NOT decided; decided are the
 structural conditions without which it cannot hold."""
 from mirlib import *
-from common import cancelled_io_findings
+from common import cancelled_io_findings, whole_reply_findings, own_request_findings
 
 H = "pgcat::client::Client::handle::{closure#0}"
 RECV = "pgcat::server::Server::recv::{closure#0}"
@@ -134,36 +134,12 @@ def run(ctx):
         r3.check(okv, "receive-returns-recv", "receive_server_message returns what Server::recv produced", "receive_server_message returns something else than Server::recv's result")
     # ---------------- R4 read until ReadyForQuery
     r4 = ctx.rule("C03-R4", "a request's reply is forwarded until the server says it is complete: the receive loops are left only on is_data_available()==false, and only ReadyForQuery clears that flag", floor=5)
-    for fn in (SARL, "pgcat::server::Server::query::{closure#0}", "pgcat::server::Server::register_prepared_statement::{closure#0}"):
-        b = ctx.body(fn, r4)
-        if not b:
-            continue
-        sws = switches(b)
-        rcv = b.calls(RSM, "pgcat::server::Server::recv")
-        lh = [hd for hd in loop_headers(b) if any(c.block in natural_loop(b, hd) for c in rcv)]
-        if not lh:
-            r4.fail("loop:" + fn.split("::")[-2], "%s no longer loops over the reply chunks (only the first chunk of a large reply would be forwarded)" % fn.split("::")[-2])
-            continue
-        hd = max(lh, key=lambda x: len(natural_loop(b, x)))
-        loop = natural_loop(b, hd)
-        T, Fa, _ = call_bool_edges(b, "pgcat::server::Server::is_data_available", switches_cache=sws)
-        fT, fF = field_bool_edges(b, "data_available", sws)
-        Fa = Fa | fF
-        exits = {(u, v) for u in loop for v in b.succ("n")[u] if v not in loop and b.blocks[v]["term"]["k"] != "unreachable" and not b.blocks[v]["cleanup"]}
-        # exits that are error returns (`?`) are fine: the transaction fails; consider exits that lead to a normal Ok continuation
-        okb = [blk for blk, i, st in b.assigns() if st["lhs"]["l"] == 0 and st["rv"]["k"] == "agg" and st["rv"].get("variant") == "Ok"]
-        norm = set()
-        for (u, v) in exits:
-            errs = {c.block for c in b.calls("re:FromResidual<.*>>::from_residual$")} | {blk for blk, i, st in b.assigns() if st["rv"]["k"] == "agg" and st["rv"].get("variant") == "Err" and "result::Result" in st["rv"].get("adt", "")}
-            if b.reach([v], avoid_blocks=errs) & set(okb):
-                norm.add((u, v))
-        bad = [e for e in norm if e not in Fa]
-        # each normal exit must be a data_available==false edge (or be dominated by one inside this iteration)
-        bad2 = []
-        for (u, v) in bad:
-            if b.uncrossed_path([c.target for c in rcv if c.block in loop and c.target is not None], [u], edges=Fa, blocks=[hd]) is not None:
-                bad2.append((u, v))
-        r4.check(bool(Fa) and bool(norm) and not bad2, "exit:" + fn.split("::")[-2], "the receive loop of %s is left (successfully) only when is_data_available() is false" % fn.split("::")[-2], "the receive loop of %s can stop while the server still has data for this request" % fn.split("::")[-2])
+    for key, ok, okmsg, failmsg in whole_reply_findings(F):
+        r4.check(ok, key, okmsg, failmsg)
+    orf, n_own = own_request_findings(F)
+    r4.check(n_own >= 4, "own-requests", "%d places send a request of pgcat's own and wait for its reply" % n_own, "only %d own-request sites found (4 known)" % n_own)
+    for key, ok, okmsg, failmsg in orf:
+        r4.check(ok, key, okmsg, failmsg)
     if rc:
         code_sw = [sw for sw in switches(rc) if sw.ty in ("char", "u8", "u32") and any(v == 90 for v, _ in sw.targets) and any(v == 68 for v, _ in sw.targets)]
         if not code_sw:
